@@ -178,13 +178,16 @@ def intersectCL (c : Circle K) (l : Line K) : CL K :=
 def towards (a b : Circle K) (d : K) : Point K :=
   padd G a.c (pmul G (pdiv G (psub G b.c a.c) d) a.r)
 
-/-- `intersect_cc` once `a` is the circle with the larger radius (crossing branch as of fix 883c692:
+/-- `intersect_cc` once `a` is the circle with the larger radius (`TouchInside` branch as of fix 542ea35, crossing branch as of fix 883c692:
     both points are built directly from `h = (d² + a.r² - b.r²) / (2 d)`, no detour through `intersect_cl`). -/
 def intersectCCOrdered (a b : Circle K) : CC K :=
   let d := dist G a.c b.c
   if G.lt d G.eps && G.lt a.r (G.add b.r G.eps) then .same
   else if G.lt d (G.sub (G.sub a.r b.r) G.eps) then .none
-  else if G.lt d (G.add (G.sub a.r b.r) G.eps) then .touchInside (towards G a b d)
+  else if G.lt d (G.add (G.sub a.r b.r) G.eps) then
+    -- fix 542ea35: `if d == 0.0 { return Same }` — concentric circles whose radii agree within EPS have no
+    -- direction to a touch point (the formula divided 0 by 0)
+    if G.ne d (G.ofInt 0) then .touchInside (towards G a b d) else .same
   else if G.lt d (G.sub (G.add a.r b.r) G.eps) then
     -- the circles cross properly (fix 883c692: both points are built directly; `h` is the distance from
     -- `a.c` to the radical line along the line of centres)
